@@ -199,6 +199,9 @@ class ProgGen:
                 s += r.choice(["优势", "劣势", "優勢", "劣勢"])
             if r.random() < 0.2:
                 s += r.choice(["min", "max"]) + str(r.randint(1, 4))
+            if r.random() < 0.08:
+                # operands may be parenthesised expressions: the term then ends in ')'
+                s = r.choice([f"{r.randint(1, 3)}d({r.randint(2, 4)}+2)", f"({r.randint(1, 2)}+1)d6", f"2d6k({r.randint(1, 2)})", f"d({r.choice([4, 6, 20])})"])
             return s
         if k < 0.65:
             self.cfg.add("f")
